@@ -1147,7 +1147,8 @@ end steps
 
 /-! ### the invariant holds in every reachable state -/
 
-theorem inv_step {sh : LShape} (hn : sh.nlinkCheck = true) (hl : sh.listenFirst = true) (idle : Nat)
+theorem inv_step {sh : LShape} (hn : sh.nlinkCheck = true) (hl : sh.listenFirst = true) (hk : sh.lockBySocket = true)
+    (idle : Nat)
     (s : St) (l : Label) (s' : St) (h : Inv idle s) (hst : step sh idle s l = some s') : Inv idle s' := by
   cases l with
   | tick d => simp only [step, Option.some.injEq] at hst; subst hst; exact inv_tick h d
@@ -1168,7 +1169,7 @@ theorem inv_step {sh : LShape} (hn : sh.nlinkCheck = true) (hl : sh.listenFirst 
         (by rw [hpc]; rfl) (by intro t0 hg; cases hg)
     next => cases hst
   | lockFlock t ok =>
-    simp only [step] at hst
+    simp only [step, hk, Bool.true_eq_false, or_false] at hst
     split at hst
     next r g hpc =>
       split at hst
@@ -1409,9 +1410,9 @@ theorem inv_step {sh : LShape} (hn : sh.nlinkCheck = true) (hl : sh.listenFirst 
     · cases hst; exact h
     · cases hst
 
-theorem inv_reachable {sh : LShape} (hn : sh.nlinkCheck = true) (hl : sh.listenFirst = true) (idle : Nat) :
-    ∀ s, (ts sh idle).Reachable s → Inv idle s :=
-  TS.invariant_of_step (ts sh idle) (Inv idle) (inv_init idle) (fun s l s' hi hst => inv_step hn hl idle s l s' hi hst)
+theorem inv_reachable {sh : LShape} (hn : sh.nlinkCheck = true) (hl : sh.listenFirst = true) (hk : sh.lockBySocket = true)
+    (idle : Nat) : ∀ s, (ts sh idle).Reachable s → Inv idle s :=
+  TS.invariant_of_step (ts sh idle) (Inv idle) (inv_init idle) (fun s l s' hi hst => inv_step hn hl hk idle s l s' hi hst)
 
 end Launch
 end VgiVerif.C33
